@@ -75,7 +75,7 @@ void h_apsp(void)
 #endif
 
 /* ------------------------------------------------------------ ConstrainedFDLayout::computePathLengths: loop-body fragments (unbounded) */
-#if defined(JOB_cpl_lengths) || defined(JOB_cpl_pair)
+#if defined(JOB_cpl_lengths) || defined(JOB_cpl_pair) || defined(JOB_cpl_tail)
 #undef DMAX
 #ifndef CPL_INT
 #undef double            /* the real double code */
@@ -180,4 +180,34 @@ __CPROVER_ensures(D[k][verif_j] == verif_sp)
 __CPROVER_assigns(__CPROVER_object_whole(D[k]))
 ;
 void h_johnsons_body(void) { unsigned n, k; long long **D; void *vs; w_johnsons_body(n, D, vs, k); VERIF_CANARY; }
+#endif
+
+#if defined(JOB_cpl_tail)
+/* the tail of computePathLengths: minD defaults to 1, every edge's end points are marked adjacent (G = 1) in both directions, and the
+ * distance matrix D -- already final at this point -- is not written again (it is outside the frame) */
+struct PACKED FDT { unsigned n; double **D; unsigned short **G; double minD; double m_idealEdgeLength; void *topologyAddon; };
+struct PACKED vecT { void *d; size_t n; size_t cap; };
+struct PACKED EdgeT { unsigned first, second; };
+#define LT(p) ((struct FDT *)(p))
+#define E0(es) ((struct EdgeT *)((struct vecT *)(es))->d)
+/* assumed: the topology add-on's hook does not touch D or minD (the default add-on does nothing) */
+void w_topo_computePathLengths(void *addon, void *G)
+__CPROVER_requires(1)
+__CPROVER_ensures(1)
+__CPROVER_assigns()
+;
+void w_cpl_tail(void *layout, void *es, void *el)
+__CPROVER_requires(__CPROVER_is_fresh(layout, sizeof(struct FDT)) && LT(layout)->n >= 1 && LT(layout)->n <= 3)
+__CPROVER_requires(__CPROVER_is_fresh(LT(layout)->D, 3 * sizeof(double *)) && __CPROVER_is_fresh(LT(layout)->G, 3 * sizeof(unsigned short *)))
+__CPROVER_requires(__CPROVER_is_fresh(LT(layout)->D[0], 3 * sizeof(double)) && __CPROVER_is_fresh(LT(layout)->D[1], 3 * sizeof(double)) && __CPROVER_is_fresh(LT(layout)->D[2], 3 * sizeof(double)))
+__CPROVER_requires(__CPROVER_is_fresh(LT(layout)->G[0], 3 * sizeof(unsigned short)) && __CPROVER_is_fresh(LT(layout)->G[1], 3 * sizeof(unsigned short)) && __CPROVER_is_fresh(LT(layout)->G[2], 3 * sizeof(unsigned short)))
+__CPROVER_requires(__CPROVER_is_fresh(es, sizeof(struct vecT)) && ((struct vecT *)es)->n == 1 && __CPROVER_is_fresh(((struct vecT *)es)->d, sizeof(struct EdgeT)))
+__CPROVER_requires(E0(es)->first < LT(layout)->n && E0(es)->second < LT(layout)->n)
+__CPROVER_requires(__CPROVER_is_fresh(el, sizeof(struct valarr)) && ((struct valarr *)el)->n <= 1 && __CPROVER_is_fresh(((struct valarr *)el)->d, sizeof(double)))
+__CPROVER_requires(!IS_NAN(LT(layout)->minD))
+__CPROVER_ensures(LT(layout)->G[E0(es)->first][E0(es)->second] == 1 && LT(layout)->G[E0(es)->second][E0(es)->first] == 1)
+__CPROVER_ensures(__CPROVER_old(LT(layout)->minD) == DBLMAX ? LT(layout)->minD == 1.0 : bits(LT(layout)->minD) == bits(__CPROVER_old(LT(layout)->minD)))
+__CPROVER_assigns(LT(layout)->minD, __CPROVER_object_whole(LT(layout)->G[0]), __CPROVER_object_whole(LT(layout)->G[1]), __CPROVER_object_whole(LT(layout)->G[2]))
+;
+void h_cpl_tail(void) { void *l, *es, *el; w_cpl_tail(l, es, el); VERIF_CANARY; }
 #endif
